@@ -175,7 +175,7 @@ func main() {
 	}
 	if *coqOut != "" {
 		var b strings.Builder
-		b.WriteString("From incr Require Import Base Heap EngineDefs Engine EngineRun EngineWf Spec.\nDefinition cases : list case := [\n")
+		b.WriteString("From incr Require Import Base Heap EngineDefs Engine EngineRun EngineWf Spec SpecProofs SpecRun.\nDefinition cases : list case := [\n")
 		b.WriteString(strings.Join(cases, ";\n"))
 		b.WriteString("].\nDefinition M := Eval vm_compute in mismatches cases.\nPrint M.\n")
 		// the model's own invariants along the same histories: the quiescent well-formedness after
@@ -183,7 +183,7 @@ func main() {
 		// after every successful pass without mid-pass writes (C)
 		if prof.Name != "reject" && prof.Name != "limit" && prof.Name != "dags" { // after a structural rejection the invariants are known not to hold (recorded finding)
 			b.WriteString("Definition W := Eval vm_compute in omap (fun c : case => wf_trace (init (fst (fst c))) (map fst (snd c)) 0) cases.\nPrint W.\n")
-			b.WriteString("Definition C := Eval vm_compute in omap (fun c : case => c01_trace (init (fst (fst c))) (map fst (snd c)) 0) cases.\nPrint C.\n")
+			b.WriteString("Definition C := Eval vm_compute in omap (fun c : case => c01_hyp_trace (init (fst (fst c))) (map fst (snd c)) 0) cases.\nPrint C.\n")
 		}
 		if err := os.WriteFile(*coqOut, []byte(b.String()), 0o644); err != nil {
 			fmt.Fprintln(os.Stderr, err)
